@@ -31,6 +31,10 @@ HINT = {
 HINT[6] = HINT[5] + (" Earlier rounds have used up the obvious places (see the list above): prefer a change of one to three lines in a function none of "
                      "them touched, whose effect shows only through what ANOTHER function later assumes. You have about 70 minutes in total: decide "
                      "on the change within the first 20, keep the demo small, and start the full test-suite run no later than minute 45.")
+HINT[7] = HINT[5] + (" Earlier rounds have used up the obvious places (see the list above): prefer a change of one to three lines in a function none of "
+                     "them touched, whose effect shows only through what ANOTHER function later assumes. TIME: you have 22 minutes in total, hard limit. "
+                     "Decide on the change within the first 7 minutes, keep the demo tiny, run only the ONE OR TWO most relevant test files (not the full suite; "
+                     "it is run for you afterwards), and write the three deliverables by minute 20 even if imperfect.")
 
 for line in open(os.path.join(VERIF, "properties.jsonl")):
     p = json.loads(line)
@@ -46,6 +50,7 @@ for line in open(os.path.join(VERIF, "properties.jsonl")):
             if s:
                 tried.append(s[:420].replace("\n", " ") + (" ..." if len(s) > 420 else ""))
     tried_txt = "\n".join(f'  {i + 1}. "{s}"' for i, s in enumerate(tried))
+    FULL = "" if rnd >= 7 else f""" Before finishing, run the FULL test suite once with your change (`cd {wt} && PYTHONPATH={wt} setsid -w timeout -k 5 3000 /venv/bin/python -m pytest -q -p no:cacheprovider --timeout=600 tests > {wt}_full.txt 2>&1 < /dev/null; true`) and make sure only the two known-bad tests fail; if any other test fails or times out, your change is exposed by the existing tests and you must pick another one. (Use `setsid -w` so that the command waits for the run to finish.)"""
     txt = f"""You are helping test a verification tool by seeding a realistic defect into a Python library (joblib/loky, a robust ProcessPoolExecutor). You work ONLY in your own scratch git worktree: {wt} (a checkout of the library; the package is the `loky/` directory, tests in `tests/`). Do NOT touch /repo or /verif, and do not look at /verif at all.
 
 Here is a semantic property the library is supposed to satisfy:
@@ -84,7 +89,7 @@ ALREADY TRIED (do NOT repeat any of these, nor a variation of them -- pick a DIF
 
 {HINT.get(rnd, '')}
 
-Additional rules: do not use `git stash` (shared with other checkouts); do not delete anything under /dev/shm; the worktree is based on a newer commit than the earlier attempts (several defects were repaired upstream since). Before finishing, run the FULL test suite once with your change (`cd {wt} && PYTHONPATH={wt} setsid -w timeout -k 5 3000 /venv/bin/python -m pytest -q -p no:cacheprovider --timeout=600 tests > {wt}_full.txt 2>&1 < /dev/null; true`) and make sure only the two known-bad tests fail; if any other test fails or times out, your change is exposed by the existing tests and you must pick another one. (Use `setsid -w` so that the command waits for the run to finish.)
+Additional rules: do not use `git stash` (shared with other checkouts); do not delete anything under /dev/shm; the worktree is based on a newer commit than the earlier attempts (several defects were repaired upstream since).{FULL}
 """
     out = f"/tmp/seed{rnd}_prompt_{pid}.txt"
     open(out, "w").write(txt)
